@@ -2,6 +2,8 @@
 
 package osm
 
+import "fmt"
+
 // Executable transcription of the C10 statement for counterexample search:
 // round trips (packed and textual) at bit-field boundaries.
 //
@@ -55,4 +57,46 @@ func oracleC10RoundTrips(ki, ri, vi int) {
 	vAssert(err != nil)
 	_, err = ParseFeatureID("tree/1")
 	vAssert(err != nil)
+}
+
+// C10, text forms are decimal: a reference written with leading zeros is the
+// same decimal number, and text in another base (0x.., 0b.., 0o.., digit
+// separators) is not an id.
+//
+//@ func oracleC10DecimalText
+//@   props C10
+//@   oracle
+//@   covers ParseObjectID
+//@   covers ParseElementID
+//@   covers ParseFeatureID
+func oracleC10DecimalText(refSel int64, verSel int, pad int, kind int) {
+	ref := refSel % (1 << 39)
+	if ref < 0 {
+		ref = -ref
+	}
+	ver := verSel % 1000
+	if ver < 0 {
+		ver = -ver
+	}
+	if pad < 0 {
+		pad = -pad
+	}
+	zeros := "000"[:pad%4]
+	types := []string{"node", "way", "relation"}
+	if kind < 0 {
+		kind = -kind
+	}
+	t := types[kind%3]
+	txt := fmt.Sprintf("%s/%s%d:%d", t, zeros, ref, ver)
+	oid, err := ParseObjectID(txt)
+	vAssert(err == nil && oid.Ref() == ref && oid.Version() == ver && string(oid.Type()) == t)
+	eid, err := ParseElementID(txt)
+	vAssert(err == nil && eid.Ref() == ref && eid.Version() == ver && string(eid.Type()) == t)
+	fid, err := ParseFeatureID(fmt.Sprintf("%s/%s%d", t, zeros, ref))
+	vAssert(err == nil && fid.Ref() == ref && string(fid.Type()) == t)
+	for _, bad := range []string{fmt.Sprintf("%s/0x%x:%d", t, ref+10, ver), fmt.Sprintf("%s/0b101:%d", t, ver), fmt.Sprintf("%s/0o17:%d", t, ver), fmt.Sprintf("%s/1_000:%d", t, ver)} {
+		_, e1 := ParseObjectID(bad)
+		_, e2 := ParseElementID(bad)
+		vAssert(e1 != nil && e2 != nil)
+	}
 }
